@@ -29,5 +29,10 @@ size_t strlcpy(char *dst, const char *src, size_t size) {
 
 	*dst = '\0';
 
+	/* the result is strlen(src), also when the copy was truncated */
+	while (*s != '\0') {
+		++s;
+	}
+
 	return s - src;
 }
